@@ -86,21 +86,27 @@ deriving Repr, DecidableEq
 def finalSites (as : List Casket.AutoHTTPS.Address) (blocks : List Block) : List Casket.AutoHTTPS.Site :=
   Casket.AutoHTTPS.pipeline ((as.zip blocks).map fun (a, b) => Casket.AutoHTTPS.siteOf a b.bind b.tls)
 
+/-- `NewServer` + `ServeHTTP` of one listener group -/
+def serveGroup (declared : Nat) (ms : List Member) (r : Req) : AutoOutcome :=
+  if ms.isEmpty then .noListener else .served declared ms (route (ms.map Member.site) r)
+
+/-- the listener on (`lbind`, `lport`) among the groups `groupSiteConfigsByListenAddr` makes -/
+def serveListener (declared : Nat) (ks : List (Member × Bool × Option B8)) (lbind lport : B8) (r : Req) : AutoOutcome :=
+  match listenKey lbind lport with
+  | none => .noListener
+  | some l => serveGroup declared ((ks.filter fun k => k.2.2 == some l).map (·.1)) r
+
+/-- directive setup, the pure stages of activateHTTPS, MakeServers and the request, for an accepted Casketfile -/
+def afterLoad (as : List Casket.AutoHTTPS.Address) (blocks : List Block) (lbind lport : B8) (r : Req) : AutoOutcome :=
+  if ((as.zip blocks).map fun (a, b) => Casket.AutoHTTPS.siteOf a b.bind b.tls).any Casket.AutoHTTPS.directiveError then
+    .directiveError
+  else if (keyed as (finalSites as blocks) 0).any (fun k => k.2.2.isNone) || anyMixed (keyed as (finalSites as blocks) 0) then
+    .makeServersError
+  else serveListener as.length (keyed as (finalSites as blocks) 0) lbind lport r
+
 def autoRoute (blocks : List Block) (lbind lport : B8) (r : Req) : AutoOutcome :=
   match Casket.AutoHTTPS.inspect (blocks.map (·.addr)) with
   | .error e => .loadError e
-  | .ok as =>
-    let decl := (as.zip blocks).map fun (a, b) => Casket.AutoHTTPS.siteOf a b.bind b.tls
-    if decl.any Casket.AutoHTTPS.directiveError then .directiveError
-    else
-      let ks := keyed as (finalSites as blocks) 0
-      if ks.any (fun k => k.2.2.isNone) || anyMixed ks then .makeServersError
-      else
-        match listenKey lbind lport with
-        | none => .noListener
-        | some l =>
-          match (ks.filter fun k => k.2.2 == some l).map (·.1) with
-          | [] => .noListener
-          | ms => .served as.length ms (route (ms.map Member.site) r)
+  | .ok as => afterLoad as blocks lbind lport r
 
 end Casket.VHostAuto
